@@ -350,6 +350,37 @@ def task_fn(task, ctx: Ctx):
                     if eq and (a.foreground, a.background) != (b.foreground, b.background):
                         ctx.violation("roundtrip", "C18/equal-describe/cross-depth", case, f"equal specs describe differently: {a!r} vs {b!r}")
                     ctx.obs(fa, fb, bg, d1, d2, eq)
+    elif kind == "subclass":
+        # applications subclass AttrSpec: equal specifications have equal hashes whatever their class, and copy_modified() keeps the class
+        class Sub(AttrSpec):
+            pass
+
+        _, fgs = task
+        for fa in fgs:
+            for bg in ("default", "dark blue", "h17", "#123456"):
+                for depth in DEPTHS:
+                    ctx.count("evaluations")
+                    try:
+                        a, b = AttrSpec(fa, bg, depth), Sub(fa, bg, depth)
+                    except AttrSpecError:
+                        continue
+                    case = {"subclass": True, "fg": fa, "bg": bg, "depth": depth}
+                    c = b.copy_modified()
+                    pairs = [("AttrSpec vs subclass", a, b), ("subclass vs its copy_modified()", b, c), ("AttrSpec vs copy_modified()", a, a.copy_modified())]
+                    # (repr() is documented as executable but is not part of the statement: a specification declared at 2**24 colours prints without
+                    # its depth; only equal-implies-same-hash is judged on the rebuilt object)
+                    try:
+                        pairs.append(("AttrSpec vs eval(repr())", a, eval(repr(a), {"AttrSpec": AttrSpec})))  # noqa: S307
+                    except Exception:  # noqa: BLE001
+                        pass
+                    if type(c) is not Sub:
+                        ctx.violation("roundtrip", "C18/roundtrip/copy_modified-class", case, f"copy_modified() of a subclass instance returned a {type(c).__name__}")
+                    for label, x, y in pairs:
+                        if x == y and hash(x) != hash(y):
+                            ctx.violation("roundtrip", f"C18/equal-hash/{label.split(' vs ')[1].split('(')[0].strip().replace(' ', '-')}", case, f"{label}: equal but hashes differ ({x!r})")
+                        if (x == y) != (y == x):
+                            ctx.violation("eq-consistent", "C18/eq-consistent/subclass", case, f"{label}: x == y is {x == y}, y == x is {y == x}")
+                    ctx.obs(fa, bg, depth, a == b)
     elif kind == "malformed":
         _, depth, strings = task
         for s in strings:
@@ -415,6 +446,7 @@ def run(tier, R):
         tasks.append(("mustreject", depth))
     for part in chunks(COVER_FG + BASIC_NAMES, 5):
         tasks.append(("crossdepth", part))
+        tasks.append(("subclass", part))
     R.run_tasks(task_fn, tasks)
     ev = int(R.ctx.counts["evaluations"])
     cov = {
